@@ -59,15 +59,23 @@ func c03Fixture(casketfile string) *fsFixture {
 
 // c03Directives renders the directive mini-language (see Driver/C03.lean) as Casketfile text.
 func c03Directives(lines string) (string, error) {
-	var b strings.Builder
+	items, err := c03DirectiveItems(lines, 0)
+	return strings.Join(items, ""), err
+}
+
+// c03DirectiveItems: one complete piece of Casketfile text per directive line; with stBlockForm
+// a basicauth rule is always written as a block.
+func c03DirectiveItems(lines string, style int) ([]string, error) {
+	var items []string
 	if lines == "" {
-		return "", nil
+		return nil, nil
 	}
 	for _, line := range strings.Split(lines, "\n") {
 		w := strings.Fields(line)
 		if len(w) == 0 {
 			continue
 		}
+		var b strings.Builder
 		switch w[0] {
 		case "tryfiles":
 			var groups [][]string
@@ -92,7 +100,7 @@ func c03Directives(lines string) (string, error) {
 			b.WriteString("\n")
 		case "rewrite":
 			if len(w) < 4 {
-				return "", fmt.Errorf("rewrite: %q", line)
+				return nil, fmt.Errorf("rewrite: %q", line)
 			}
 			to := strings.Join(w[3:], " ")
 			switch w[1] {
@@ -103,29 +111,36 @@ func c03Directives(lines string) (string, error) {
 			case "base":
 				fmt.Fprintf(&b, "\trewrite %s {\n\t\tto %s\n\t}\n", w[2], to)
 			default:
-				return "", fmt.Errorf("rewrite kind: %q", line)
+				return nil, fmt.Errorf("rewrite kind: %q", line)
 			}
 		case "ext":
 			fmt.Fprintf(&b, "\text %s\n", strings.Join(w[1:], " "))
 		case "basicauth":
 			if len(w) < 4 {
-				return "", fmt.Errorf("basicauth: %q", line)
+				return nil, fmt.Errorf("basicauth: %q", line)
 			}
 			res := strings.Split(w[3], ",")
-			if len(w) == 4 && len(res) == 1 {
+			if len(w) == 4 && len(res) == 1 && style&stBlockForm == 0 {
 				fmt.Fprintf(&b, "\tbasicauth %s %s %s\n", res[0], w[1], w[2])
 				break
 			}
 			fmt.Fprintf(&b, "\tbasicauth %s %s {\n", w[1], w[2])
+			var inner []string
 			for _, r := range res {
-				fmt.Fprintf(&b, "\t\t%s\n", r)
+				inner = append(inner, fmt.Sprintf("\t\t%s\n", r))
 			}
 			if len(w) > 4 && w[4] != "-" {
 				for _, e := range strings.Split(w[4], ",") {
-					fmt.Fprintf(&b, "\t\texclude %s\n", e)
+					excl := fmt.Sprintf("\t\texclude %s\n", e)
+					if style&stShuffle != 0 {
+						// the lines of the block in another order: exclusions before the resources
+						inner = append([]string{excl}, inner...)
+					} else {
+						inner = append(inner, excl)
+					}
 				}
 			}
-			b.WriteString("\t}\n")
+			b.WriteString(strings.Join(inner, "") + "\t}\n")
 		case "internal":
 			fmt.Fprintf(&b, "\tinternal %s\n", w[1])
 		case "proxy":
@@ -133,16 +148,17 @@ func c03Directives(lines string) (string, error) {
 			fmt.Sscanf(w[2], "%d", &id)
 			be := c03Backends[id]
 			if be == nil {
-				return "", fmt.Errorf("proxy backend %q", w[2])
+				return nil, fmt.Errorf("proxy backend %q", w[2])
 			}
 			fmt.Fprintf(&b, "\tproxy %s %s\n", w[1], strings.TrimPrefix(be.URL, "http://"))
 		case "gzip":
 			b.WriteString("\tgzip\n")
 		default:
-			return "", fmt.Errorf("directive %q", w[0])
+			return nil, fmt.Errorf("directive %q", w[0])
 		}
+		items = append(items, b.String())
 	}
-	return b.String(), nil
+	return items, nil
 }
 
 type c03Site struct {
@@ -226,7 +242,13 @@ var c03AE = []string{"", "", "gzip", "br", "zstd, gzip"}
 var c03Queries = []string{"", "", "", "?archive=tar", "?archive=zip", "?archive=tar.gz", "?x=1"}
 
 func c03Gen(g *hx.Gen) {
-	for _, s := range c03Sites(g) {
+	all := c03Sites(g)
+	hand := all // the hand-made sites come first; thorough appends generated combinations
+	if len(hand) > 28 {
+		hand = hand[:28]
+	}
+	defer c03AddrsGen(g, hand)
+	for _, s := range all {
 		sf := s.fields()
 		emitC := func(method, target, ae, cred, cond string) {
 			g.Case(append(append([]string{}, sf...), method, hx.HS(target), hx.HS(ae), hx.HS(cred), hx.HS(cond))...)
@@ -348,11 +370,108 @@ func c03Gen(g *hx.Gen) {
 	}
 }
 
+// c03AddrsGen: server blocks with two or three addresses, written in several styles; every request
+// goes to EVERY address of the block (each address is a site configuration of its own, set up by
+// its own run of every directive's setup function).  The case is a c03.chain case with two more
+// fields: "<host,host…>|<style>" and the address asked.
+func c03AddrsGen(g *hx.Gen, sites []c03Site) {
+	r := g.Rng
+	fx := c03Fixture("/site/Casketfile")
+	addrSets := [][]string{{"a.test", "b.test"}, {"c.test", "localhost", "d.test"}, {"127.0.0.1", "e.test"}}
+	n := 0
+	// plus sites whose internal path is a whole directory below a browsable directory WITHOUT an
+	// index page (/area): the listing and the archive of the parent are the only way in
+	u := []string{"bob:pw", "bob:wrong", "eve:pw", "alice:pw2"}
+	sites = append(append([]c03Site{}, sites...),
+		c03Site{"", c03A, "", []string{"internal /area/locked"}, u},
+		c03Site{"/pre", "/area|tar", "", []string{"internal /area/locked/", "basicauth bob pw /secret/"}, u},
+		c03Site{"", "/area/|zip;/|", "", []string{"internal /area/locked", "internal /area/inner/", "internal /int/sub"}, u},
+	)
+	for si, s := range sites {
+		hasProt := false
+		for _, d := range s.dirs {
+			if strings.HasPrefix(d, "internal") || strings.HasPrefix(d, "basicauth") {
+				hasProt = true
+			}
+			if d == "gzip" {
+				hasProt = false // conditional answers of a gzip site are rendered apart; c03.chain proper has them
+				break
+			}
+		}
+		if !hasProt {
+			continue
+		}
+		sf := s.fields()
+		// two spellings per site: one address set as written by hand, one in a seeded random style
+		for k, hosts := range [][]string{addrSets[si%len(addrSets)], addrSets[(si+1)%len(addrSets)]} {
+			style := 0
+			if k == 1 && si%2 == 1 && si < 28 {
+				continue
+			}
+			if k == 1 {
+				style = r.Intn(stAll + 1)
+			} else if si%3 == 1 {
+				style = 1 << (si % stBits)
+			}
+			written := hx.HS(fmt.Sprintf("%s|%d", strings.Join(hosts, ","), style))
+			probed := hosts
+			if k == 1 {
+				probed = []string{hosts[0], hosts[len(hosts)-1]} // the random spelling: first and last address
+			}
+			for _, h := range probed {
+				emit := func(method, target, ae, cred, cond string) {
+					n++
+					g.Case(append(append([]string{}, sf...), method, hx.HS(target), hx.HS(ae), hx.HS(cred), hx.HS(cond), written, h)...)
+				}
+				for _, e := range fx.entries {
+					if !strings.HasPrefix(e.path, "/site") {
+						continue
+					}
+					rel := strings.TrimPrefix(e.path, "/site")
+					emit("GET", s.prefix+rel, "", "", "")
+					emit("GET", s.prefix+rel, "", "bob:pw", "")
+					if e.isDir {
+						emit("GET", s.prefix+rel+"/", "", "", "")
+						emit("HEAD", s.prefix+rel+"/", "", "", "")
+						for _, q := range c03Queries[3:6] {
+							emit("GET", s.prefix+rel+"/"+q, "", "", "")
+							emit("GET", s.prefix+rel+q, "", "alice:pw2", "")
+						}
+					} else {
+						emit("HEAD", s.prefix+rel, "gzip", "bob:wrong", "")
+						emit("GET", s.prefix+rel, "gzip", "", fmt.Sprintf("inm=s%d", e.ino))
+						emit("GET", s.prefix+"/x/.."+rel, "", "", "")
+					}
+				}
+			}
+		}
+	}
+}
+
 func c03Eval(f []string) (string, []string) {
-	if len(f) != 12 {
+	if len(f) != 12 && len(f) != 14 {
 		return "bad-case", nil
 	}
-	site, err := fsSiteFor(f[:7], func(T string) (string, error) {
+	key := f[:7]
+	host := "fs.test"
+	var hosts []string
+	style := 0
+	if len(f) == 14 {
+		// a server block with several addresses, written in the given style; the request goes to f[13]
+		key = append(append([]string{}, f[:7]...), f[12])
+		hs, st, _ := strings.Cut(hx.UnHS(f[12]), "|")
+		hosts = strings.Split(hs, ",")
+		fmt.Sscanf(st, "%d", &style)
+		host = f[13]
+	}
+	site, err := fsSiteFor(key, func(T string) (string, error) {
+		if hosts != nil {
+			items, err := c03DirectiveItems(hx.UnHS(f[6]), style)
+			if err != nil {
+				return "", err
+			}
+			return fsBlockText(T, fsBlockSpec{hosts: hosts, root: hx.UnHS(f[1]), prefix: hx.UnHS(f[3]), browse: hx.UnHS(f[4]), index: hx.UnHS(f[5]), extra: items, style: style}), nil
+		}
 		extra, err := c03Directives(hx.UnHS(f[6]))
 		if err != nil {
 			return "", err
@@ -372,7 +491,7 @@ func c03Eval(f []string) (string, []string) {
 		hdr += "Authorization: Basic " + base64.StdEncoding.EncodeToString([]byte(cred)) + "\r\n"
 	}
 	hdr += c02CondHeaders(cond, id)
-	resp, body, rerr, err := site.fetch(method, target, hdr)
+	resp, body, rerr, err := site.fetchHost(host, method, target, hdr)
 	if err != nil {
 		return "io-error", []string{"io-error"}
 	}
@@ -396,6 +515,16 @@ func c03Eval(f []string) (string, []string) {
 	}
 	if kind == "S404" || kind == "S400" || kind == "S405" {
 		tags = append(tags, "trivial-"+kind)
+	}
+	for i, h := range hosts {
+		if h == host {
+			tags = append(tags, fmt.Sprintf("address-%d-of-%d", i, len(hosts)))
+		}
+	}
+	for bit, name := range stNames {
+		if style&(1<<bit) != 0 {
+			tags = append(tags, "style="+name)
+		}
 	}
 	return out, tags
 }
